@@ -273,6 +273,25 @@ def audit_theorems():
     return props
 
 
+
+def sweep_work(max_age_s=3600):
+    """removes scratch files (chunk inputs / echoes, harness scratch files) that an interrupted or timed-out
+    run left behind more than an hour ago"""
+    now = time.time()
+    for d in (WORK, os.path.join(WORK, "tmp")):
+        if not os.path.isdir(d):
+            continue
+        for f in os.listdir(d):
+            p = os.path.join(d, f)
+            if d == WORK and not (f.endswith(".ops") or f.endswith(".echo")):
+                continue
+            try:
+                if os.path.isfile(p) and now - os.path.getmtime(p) > max_age_s:
+                    os.remove(p)
+            except OSError:
+                pass
+
+
 # ------------------------------------------------------------------ running both sides
 def run_pair(ops_text, harness_bin, tag="run", timeout=1200, harness_env=None, partial_on_timeout=False):
     """Runs the implementation harness, then the model driver on the echoed (oracle-augmented)
